@@ -125,7 +125,7 @@ def compare(ctx: Ctx, arms: ArmCounter, entry: str, label: str, make, hostile: b
     off = canon_outcome(outcome(make()))
     leaked = arms.served - s1
     set_backend(True)
-    if leaked:
+    if leaked and not label.endswith("the-other-arm"):   # those flows switch the backend themselves, on purpose
         ctx.violation(f"switch-ignored:{entry}", f"{entry}: the bindings served {leaked} call(s) while switched off", {"entry": entry, "label": label})
     if on != off:
         kind = "value" if on[0] == off[0] == "ok" else ("exception-class" if on[0] == off[0] else "answer-vs-refusal")
@@ -347,6 +347,26 @@ def shard_entries(ctx: Ctx) -> None:  # noqa: C901, PLR0912, PLR0915
                 return f
             go("dsa.Signer", "Signer", signer_flow, hostile, (d, mh32))
 
+            def crossing_signer(mod, aux=None):
+                """A signer built while one arm serves and asked while the other does: turning the backend on or off at
+                run time changes speed and nothing else, for an object alive across the switch as for a call."""
+                def make():
+                    def f():
+                        import btclib.curves.curve as C
+                        now = bool(getattr(C, "_libsecp256k1_available", True))
+                        set_backend(not now)
+                        s = mod.Signer(d)
+                        set_backend(now)
+                        a = s.sign_(mh32) if aux is None else s.sign_(mh32, aux)
+                        set_backend(not now)
+                        b = s.sign_(mh32) if aux is None else s.sign_(mh32, aux)
+                        set_backend(now)
+                        return (a, b)
+                    return f
+                return make
+            if not hostile and backend_available():
+                go("dsa.Signer", "Signer-built-on-the-other-arm", crossing_signer(dsa), False, (d, mh32, "x"))
+
             # ---------------- BIP340
             aux = r.choice([bytes(32), b"\xff" * 32, H("aux", rnd)]) if not hostile else r.choice([bytes(32), b"", bytes(31), bytes(33)])
             smsg = I.msg()
@@ -411,6 +431,8 @@ def shard_entries(ctx: Ctx) -> None:  # noqa: C901, PLR0912, PLR0915
                     return (a, after)
                 return f
             go("ssa.Signer", "Signer", ssigner_flow, hostile, (d, smsg, aux))
+            if not hostile and backend_available():
+                go("ssa.Signer", "Signer-built-on-the-other-arm", crossing_signer(ssa, bytes(32)), False, (d, mh32, "x"))
 
             # ---------------- bms
             from btclib.to_prv_key import prv_keyinfo_from_prv_key  # noqa: F401
